@@ -38,8 +38,14 @@ def oracle(c):
     if c["res"] == "Ok":
         if bad:
             return "data-from-absent-device", "entry point %d returned a value although a checked datagram was serviced by %d devices instead of %d" % (c["op"], bad[1], bad[0])
-        # what was returned is what the device holds
         op = c["op"]
+        if op == 14:
+            # the transition succeeded: the last status poll was answered
+            last = c["dgrams"][-1] if c["dgrams"] else None
+            if not last or last[2] != 0x0130 or last[3] != 1:
+                return "state-from-absent-device", "into_safe_op returned Ok although its last status poll was not answered by the device"
+            return None
+        # what was returned is what the device holds
         answered = all(d[3] >= 1 for d in c["dgrams"]) and not c["drop_from_seen"] if "drop_from_seen" in c else all(d[3] >= 1 for d in c["dgrams"])
         if not answered:
             return None       # the caller expected nobody to answer (count 0) or opted out: no data to compare
@@ -80,7 +86,7 @@ def run(ctx, replay=None):
     vlib.proof_stage(ctx, "Props/C11.v")
     ctx.coverage["trusted_base"] = TB
     ctx.assumptions += ["WrappedWrite::send and ignore_wkc callers are exempt as the property says; status() reads the AL status code a second time when the error flag is set and swallows that read's failure (an error is still returned)",
-                        "group state transitions are covered by C10's check (absent members, wrong counters)"]
+                        "the waiting half of group state transitions is covered by C10's check (absent members, wrong counters); the request write is entry point 14 here"]
     n = 3000 if quick else 30000
     cases = []
     for rel in ([False] if quick else [False, True]):
@@ -109,7 +115,7 @@ def run(ctx, replay=None):
         shards.append(cs)
         items = []
         for c in cs:
-            al = "true" if c["op"] == 10 and c["res"] == "Err" and "SubDevice" in c.get("err", "") else "false"
+            al = "true" if (c["op"] == 10 and c["res"] == "Err" and "SubDevice" in c.get("err", "")) or (c["op"] == 14 and c["res"] == "Err" and not c.get("err", "").startswith("WorkingCounter")) else "false"
             dgs = "[" + "; ".join("{| g_cmd := %d; g_ado := %d; g_wkc := %d |}" % (d[0], d[2], d[3]) for d in c["dgrams"]) + "]"
             items.append("((%d, %d, %s, %s), %s%%Z)" % (c["op"], c["expected"], al, dgs, vlib.gz(exp_obs(c))))
         lines = ["From EC Require Import Base.Prelude Base.Bytes Cmd.Wkc Wire.Check.", "Local Open Scope N_scope.",
@@ -129,6 +135,6 @@ def run(ctx, replay=None):
             first = cs[idxs[0]] if idxs and idxs[0] < len(cs) else None
             ctx.violation("model and implementation disagree on %d entry-point run(s) (first differing one in replay)" % len(idxs), {"broken": "correspondence", "case": first}, no_input=True)
     ctx.coverage.update(evaluations=len(cases), distinct_nontrivial=len({json.dumps([c["op"], c["fault"], c["at"], c["alter"], c["expected"]]) for c in cases}),
-                        rule="14 entry points (Command::fprd/fpwr/brd receive, receive_slice, send_receive, send_receive_slice, send with default / caller-supplied 0..3 / ignored counts; register_read, register_write, status, eeprom_read_raw, sdo_read, sdo_write) x faults (none, one datagram's counter altered to 0/2/3/0xffff, device gone from the k-th datagram on, device absent)",
+                        rule="15 entry points (request_into_op of a group (the AL control write of request_subdevice_state_nowait); Command::fprd/fpwr/brd receive, receive_slice, send_receive, send_receive_slice, send with default / caller-supplied 0..3 / ignored counts; register_read, register_write, status, eeprom_read_raw, sdo_read, sdo_write) x faults (none, one datagram's counter altered to 0/2/3/0xffff, device gone from the k-th datagram on, device absent)",
                         per_entry_point=per_op, faults=faults, disagreements=dis, optout_sites=17,
                         samples=[{"op": cases[0]["op"], "fault": cases[0]["fault"], "res": cases[0]["res"]}])
